@@ -116,7 +116,7 @@ func NewContracts() *Contracts {
 
 var keywords = map[string]bool{"func": true, "requires": true, "ensures": true, "assigns": true, "elems": true, "emits": true, "emit": true,
 	"loop": true, "invariant": true, "decreases": true, "pred": true, "spec": true, "axiom": true, "lemma": true, "event": true,
-	"ghost": true, "at": true, "inline": true, "havoc": true, "nosafety": true, "assume": true}
+	"ghost": true, "at": true, "inline": true, "bounded": true, "havoc": true, "nosafety": true, "assume": true}
 
 type rawLine struct {
 	text string
@@ -297,6 +297,11 @@ func (cs *Contracts) parseLines(lines []rawLine, trusted bool) error {
 				return errf("inline outside func")
 			}
 			cur.Inline = true
+		case kw == "bounded":
+			if cur == nil {
+				return errf("bounded outside func")
+			}
+			cur.Bound = true
 		case kw == "nosafety":
 			if cur == nil {
 				return errf("nosafety outside func")
